@@ -238,7 +238,20 @@ def events():
             w.net.live()[-1].peer_eof()
             w.loop.run_until(w.loop.time() + 1.0)
 
+    def reinit(p, k):
+        # the application shuts both clients down and initialises the same objects again; nothing changed at the consoles:
+        # the second life starts from what the console reports, like the first, in both generations alike
+        for gen, w in p.w.items():
+            w.spawn(w.at.shutdown())
+            w.loop.run_until(w.loop.time() + 1.0)
+            w.init_result.clear()
+            w.start_init()
+            w.loop.run_until(w.loop.time() + 1.0)
+            if not (w.init_result and w.init_result[-1][:2] == ("returned", True)):
+                return f"AirTouch {gen} client: init() after shutdown() -> {w.init_result}"
+
     return [
+        ("shutdown+init", reinit),
         ("ac0-status", st_ac0), ("ac1-status", st_ac1), ("zone0-status", st_zone0), ("zone2-status", st_zone2),
         ("timer-status", st_timer), ("version", st_version), ("reconnect", reconnect),
         ("ac0-error-same-code", st_ac0_error), ("lose-next-error-reply", lose_error_reply),
